@@ -1,6 +1,7 @@
 import Qentem.Driver.Proto
 import Qentem.Model.Seq
 import Qentem.Model.Mem
+import Qentem.Model.SeqLedger
 /-!
 Driver for C14.  One line carries a whole test program (the table of objects lives for one line):
 
@@ -10,6 +11,8 @@ Driver for C14.  One line carries a whole test program (the table of objects liv
   seq-view   <width> <op;op;…>          model of `StringView`
   seq-…-spec <…> <op;op;…>              the plain `List` specification of the same program (S3 oracle)
   seqmem copy|zero <simd> <shift> <size> <seed>     `Memory::Copy` / `SetToZero` model; digest of the result
+  seqled-array i <ops> | seqled-string <w> <ops> | seqled-stream <w> <x|s> <ops>
+                                         C16: the allocation trace (`a<id>:<bytes>`, `f<id>`) the program emits
 
 Output: the dump of the three registers after every step, steps joined by `|`.
 -/
@@ -228,6 +231,18 @@ def runMem (what : String) (simd : Bool) (shift size seed : Nat) : String :=
   | "spec-zero" => s!"{Mem.fnv (List.replicate size 0)} {Mem.fnv (List.replicate 8 170)}"
   | _ => "bad-op"
 
+/-! ### C16: allocation trace of a program (all steps, then destruction of the three objects) -/
+def showEv : Qentem.Ledger.Ev → String
+  | .alloc i s => s!"a{i}:{s}"
+  | .free i => s!"f{i}"
+  | .touch i => s!"t{i}"
+
+def showTrace (t : List Qentem.Ledger.Ev) : String :=
+  if t.isEmpty then "-" else ",".intercalate (t.map showEv)
+
+def width? (s : String) : Option Nat :=
+  if s == "1" then some 1 else if s == "2" then some 2 else if s == "4" then some 4 else none
+
 def orBad : Option String → String
   | some s => s
   | none => "bad-op"
@@ -245,6 +260,16 @@ def handle (op : String) (args : List String) : String :=
   | "seq-stream-spec", [_w, _p, ops] => orBad ((parseOps parseSs ops).map runSsSpec)
   | "seq-view", [_w, ops] => orBad ((parseOps parseSv ops).map runSv)
   | "seq-view-spec", [_w, ops] => orBad ((parseOps parseSv ops).map runSvSpec)
+  | "seqled-array", [k, ops] =>
+    if k == "i" then orBad ((parseOps parseArr ops).map fun o => showTrace (SeqLedger.arrTrace 4 o)) else "bad-op"
+  | "seqled-string", [w, ops] =>
+    orBad (do let w ← width? w; let o ← parseOps parseStr ops; some (showTrace (SeqLedger.strTrace w o)))
+  | "seqled-stream", [w, p, ops] =>
+    orBad (do
+      let w ← width? w
+      let o ← parseOps parseSs ops
+      if p == "x" then some (showTrace (SeqLedger.ssTrace policyExact w o))
+      else if p == "s" then some (showTrace (SeqLedger.ssTrace policyStd w o)) else none)
   | "seqmem", [what, simd, shift, size, seed] =>
     orBad (do
       let b ← parseBool simd
